@@ -29,6 +29,21 @@ package discovery
 // timestamp classes relative to EACH direction's stored policy, on channels
 // whose two directions hold far-apart / equal / missing policies; same
 // reference predicate and oracles, see the "Cross-direction phase" section.
+//
+// Restart dimension (own PRNG stream): at PRNG points inside all three phases
+// gossiper + builder + graph store are torn down and re-created on the SAME
+// database (cold reject / channel / graph caches, empty gossiper caches; the
+// database file closed and re-opened or kept; lnd's default cache sizes or
+// reject / channel caches of 1..3 entries that evict on lookups of other
+// channels; 1 scenario in 4 runs with such tiny caches from its first message).
+// After the x phase an after-restart replay phase lays out both directions'
+// policies, restarts, and delivers stale / equal / fresh authentic updates of
+// either direction 1-3 times each (identical bytes, distinct peers) interleaved
+// with duplicate channel_announcements, node announcements and lookups of
+// other channels; see the "Restart dimension" section. The graph snapshot
+// additionally holds the policies as served by ChanUpdatesInHorizon (the read
+// path through the store's channel cache), keys hz/<scid>/<dir>, judged exactly
+// like the pol/ key of the same direction. No oracle was added or changed.
 
 import (
 	"bytes"
@@ -3374,6 +3389,7 @@ func (s *verifC20Scn) restartStep(idx int, where string) {
 			diff = append(diff, fmt.Sprintf("zombie/%d", id))
 		}
 	}
+	sort.Strings(diff)
 	entry["changed"] = diff
 	if len(diff) > 0 {
 		vc.Count("restart_changed_graph", 1)
@@ -3635,6 +3651,8 @@ func verifC20RunScenario(t *testing.T, vc *verifCtx, r *verifRng, caseIdx, steps
 		vc.Count("scenario_without_good_slot", 1)
 		return
 	}
+	s.log = append(s.log, map[string]any{"i": -1, "label": "open", "type": "env",
+		"reject_cache_size": o0.Rej, "channel_cache_size": o0.Chan})
 	s.snap = c.snapshot()
 	// prime the flush path once (also proves the sentinel works).
 	c.waitBroadcast(c.quiesce())
@@ -3650,7 +3668,7 @@ func verifC20RunScenario(t *testing.T, vc *verifCtx, r *verifRng, caseIdx, steps
 			return
 		}
 		if i > 0 {
-			s.maybeRestart(i, "catalogue", 1, 14)
+			s.maybeRestart(i, "catalogue", 1, 20)
 		}
 		if i == forceAt && !s.mainAnnounced {
 			s.mainAnnounced = true
@@ -3686,7 +3704,7 @@ func verifC20RunScenario(t *testing.T, vc *verifCtx, r *verifRng, caseIdx, steps
 			return
 		}
 		if j > 0 {
-			s.maybeRestart(idx, "zombie", 1, 10)
+			s.maybeRestart(idx, "zombie", 1, 14)
 		}
 		dead := 0
 		for _, z := range s.zombies {
